@@ -1,10 +1,10 @@
-(* Tie/Alpm.v — the generated translation of pkg/ecosystem/alpm (Gen/Code/Alpm.v) against the
-   model (Eco/Alpm).  compareSegmentBySegment (loop) is outside the translated
-   fragment: Compare and the range switch are tied generically in it. *)
+(* Tie/Alpm.v — VERSION level: the generated translation of pkg/ecosystem/alpm
+   (Gen/Code/Alpm.v) against the model (Eco/Alpm/Version).  compareSegmentBySegment (loop) is
+   outside the translated fragment: Compare is tied generically in it.  The range-level ties
+   are in Tie/AlpmRange.v (which depends on this file, never the other way round). *)
 From Coq Require Import ZArith List Bool Lia.
 From Verif.Base Require Import Bytes GoNum GoOps Ord.
-From Verif.Eco Require Import RangeCore.
-From Verif.Eco.Alpm Require Version Range.
+From Verif.Eco.Alpm Require Version.
 From Verif.Gen.Code Require Alpm.
 From Verif.Tie Require Import Tactics.
 Import ListNotations.
@@ -30,28 +30,5 @@ Section Compare.
   Theorem tie_alpm_compare : forall a b,
     G.Version_Compare compareSegmentBySegment a b = Z_of_cmp (M.cmp_core (abs a) (abs b)).
   Proof. tie_solve_with compareSegmentBySegment_model. Qed.
-
-  (* range: the operator switch, for any Compare (it stays folded) *)
-  Local Opaque G.Version_Compare.
-  Theorem tie_alpm_matches : forall c v,
-    G.constraint_matches compareSegmentBySegment c v =
-    sat (rc_sem Range.cfg (G.constraint_operator c)) (cmp_of_Z (G.Version_Compare compareSegmentBySegment v (G.constraint_version c))).
-  Proof. tie_solve. Qed.
-
-  Corollary tie_alpm_matches_model : forall c v,
-    G.constraint_matches compareSegmentBySegment c v =
-    sat (rc_sem Range.cfg (G.constraint_operator c)) (M.cmp_core (abs v) (abs (G.constraint_version c))).
-  Proof. intros. rewrite tie_alpm_matches, tie_alpm_compare, cmp_of_Z_of_cmp. reflexivity. Qed.
-
-  Theorem tie_alpm_contains : forall r v,
-    G.VersionRange_Contains compareSegmentBySegment r v =
-    forallb (fun c => sat (rc_sem Range.cfg (G.constraint_operator c)) (M.cmp_core (abs v) (abs (G.constraint_version c))))
-            (G.VersionRange_constraints r).
-  Proof.
-    intros. unfold G.VersionRange_Contains. apply forallb_ext_in. intros c _. apply tie_alpm_matches_model.
-  Qed.
 End Compare.
 Print Assumptions tie_alpm_compare.
-Print Assumptions tie_alpm_matches.
-Print Assumptions tie_alpm_matches_model.
-Print Assumptions tie_alpm_contains.
